@@ -142,7 +142,8 @@ func genBatchCase(rng *rand.Rand) BatchCase {
 	default:
 		c.Kind = Kind{Kinesis: "walstart"}
 	}
-	pkeys := []string{"public.t", "", "7001", "3", strings.Repeat("k", 256), "p"}
+	// (non-ASCII keys: a quoted relation name may hold any UTF-8; limits are in BYTES)
+	pkeys := []string{"public.t", "", "7001", "3", strings.Repeat("k", 256), "p", "public.\"顧客台帳\"", strings.Repeat("é", 128), "\U0001F600\U0001F600"}
 	c.PKey = pkeys[rng.Intn(len(pkeys))]
 	n := 1 + rng.Intn(12)
 	shape := rng.Intn(10)
